@@ -24,7 +24,7 @@ import warnings
 import common
 
 ID = "C16"
-LEAN_MODULES = ["QProps.C16"]
+LEAN_MODULES = ["QProps.C16", "QProps.C16l"]
 THEOREMS = [
     "Files.log_after_call",
     "Files.log_header_only",
@@ -39,6 +39,17 @@ THEOREMS = [
     "Files.reopened_files_keep_content",
     "Files.failed_call_keeps_restart_point",
     "Files.failed_call_pinned_empties",
+    "LogT.row_is_one_line",
+    "LogT.header_is_one_line",
+    "LogT.header_and_row_same_columns",
+    "LogT.cell_aligned",
+    "LogT.columns_aligned",
+    "LogT.header_row_same_length",
+    "LogT.add_field_keys",
+    "LogT.add_field_present",
+    "LogT.add_field_count",
+    "LogT.remove_fields_spec",
+    "LogT.remove_fields_order",
     "Files.isFrameCall_iff",
     "Files.isRestartCall_iff",
 ]
@@ -990,5 +1001,244 @@ class RunAfterClose(common.Suite):
         return f"{case['driver']}:{case['mode']}:raised={obs.get('raised')}"
 
 
+# ------------------------------------------------------------------------------------------------ the field table
+def _hx(t: str) -> str:
+    return t.encode("ascii").hex() if t else "-"
+
+
+def _fmt_py(segs) -> str:
+    out = []
+    for sg in segs:
+        if sg[0] == "L":
+            out.append(sg[1])
+        else:
+            _, al, w, ty = sg
+            out.append("{:" + {"l": "<", "r": ">", "c": "^", "n": ""}[al] + ("" if w is None else str(w)) + ty + "}")
+    return "".join(out)
+
+
+def _fmt_tok(segs) -> str:
+    return "|".join(("L" + _hx(sg[1])) if sg[0] == "L" else f"H{sg[1]}{'~' if sg[2] is None else sg[2]}.{sg[3]}" for sg in segs)
+
+
+class LoggerTable(common.Suite):
+    """the logger's table of fields (`add_field` with string and tuple names, re-adding under a used name, `remove_fields`,
+    automatic and explicit header formats, array fields) and the two lines it produces, byte for byte against
+    `QModel/LogTable.lean`; values are strings and integers so that both sides render them exactly"""
+
+    name = "logger-table"
+    _vals = None
+
+    NAMES = ["Class", "Step", "Epot[eV]", "E", "T[K]", "Stress[xx][GPa]", "Stress[yy][GPa]", "N", "a b", "x", ""]
+    LITS = [" ", "|", "eV", "#", "= ", "a b"]
+
+    def _segs(self, rng, nholes, explicit=True):
+        segs = []
+        for k in range(nholes):
+            if rng.random() < 0.15:
+                segs.append(("L", rng.choice(self.LITS)))
+            al = rng.choice(["l", "r", "c", "n", "r", "l"])
+            w = rng.choice([None, 1, 4, 8, 10, 12, 18, 24]) if not explicit or rng.random() < 0.25 else rng.choice([6, 8, 10, 12, 18, 24])
+            segs.append(("H", al, w, rng.choice(["s", "d"])))
+        if rng.random() < 0.1:
+            segs.append(("L", rng.choice(self.LITS)))
+        return segs
+
+    def cases(self, rng, tier):
+        n = 250 if tier == "quick" else 4000
+        for i in range(n):
+            malformed = i % 9 == 4
+            ops = []
+            keys = []
+            for _ in range(rng.randint(1, 9)):
+                r = rng.random()
+                if r < 0.62 or not keys:
+                    arr = rng.random() < 0.3
+                    if arr:
+                        nh = rng.randint(1, 4)
+                        segs = self._segs(rng, nh)
+                        kind = rng.random()
+                        if kind < 0.6:
+                            key = ("t", rng.sample(self.NAMES[:9], min(nh, 9)))
+                        elif kind < 0.8:
+                            key = ("s", rng.choice(self.NAMES))   # one name for the whole array
+                        else:
+                            key = ("t", rng.sample(self.NAMES[:9], rng.randint(0, nh + (1 if malformed else 0))))
+                    else:
+                        segs = self._segs(rng, 1)
+                        key = ("s", rng.choice(self.NAMES))
+                        if malformed and rng.random() < 0.3:
+                            key = ("t", rng.sample(self.NAMES[:9], 2))  # a tuple name on a scalar field
+                    if keys and rng.random() < 0.25:
+                        key = rng.choice(keys)  # a used name: replaced in place
+                    hdr = None
+                    if rng.random() < 0.15:
+                        hdr = self._segs(rng, sum(1 for sg in segs if sg[0] == "H") if rng.random() < 0.8 else rng.randint(0, 3))
+                        hdr = [(sg[0], sg[1], sg[2], "s") if sg[0] == "H" else sg for sg in hdr]
+                    as_list = key[0] == "t" and rng.random() < 0.5
+                    ops.append({"op": "add", "key": key, "fmt": segs, "hdr": hdr, "array": arr, "as_list": as_list})
+                    if key not in keys:
+                        keys.append(key)
+                elif r < 0.74:
+                    ops.append({"op": "remove", "pattern": rng.choice(["Step", "E", "[", "Stress", "a", "zz", "T[K]", "", " "])})
+                    keys = []  # (the generator does not track removals; re-adds pick from later keys)
+                elif r < 0.86:
+                    ops.append({"op": "header"})
+                else:
+                    ops.append({"op": "call", "vseed": rng.randrange(2**30), "short": malformed and rng.random() < 0.3,
+                                "wrong": malformed and rng.random() < 0.3})
+            ops.append({"op": "header"})
+            ops.append({"op": "call", "vseed": rng.randrange(2**30), "short": False, "wrong": False})
+            yield {"ops": ops}
+
+    # the values one call's functions return, decided by the table as the REAL logger holds it at that moment
+    @staticmethod
+    def _values(fields, op):
+        import random as _r
+        rr = _r.Random(op["vseed"])
+        out = []
+        for _key, f in fields:
+            tys = [sg for sg in f["fmt"] if sg[0] == "H"]
+            vals = []
+            for sg in tys:
+                ty = sg[3]
+                if op["wrong"] and rr.random() < 0.3:
+                    ty = "s" if ty == "d" else "d"
+                if ty == "s":
+                    vals.append(rr.choice(["Canonical", "GrandCanonical", "x", "", "a b", "ForceBias"]))
+                else:
+                    vals.append(rr.choice([0, 7, -42, 1000, 123456789012, -1, 10**15]))
+            if f["array"]:
+                if op["short"] and vals:
+                    vals = vals[:-1]
+                elif rr.random() < 0.1:
+                    vals = [*vals, 5]  # surplus arguments are ignored by str.format
+                out.append(vals)
+            else:
+                out.append(vals[:1] if vals else ["x"])
+        return out
+
+    def real(self, case):
+        from quansino.io.logger import Logger
+
+        self._vals = None
+        buf = io.StringIO()
+        lg = Logger(buf, interval=1)
+        outs = []
+        descr = {}
+        vals_log = []
+        for op in case["ops"]:
+            if op["op"] == "add":
+                kind, names = op["key"]
+                name = names if kind == "s" else (list(names) if op["as_list"] else tuple(names))
+                current = {}
+
+                def fn(cur=current):
+                    return cur["v"]
+
+                kw = {}
+                if op["hdr"] is not None:
+                    kw["header_format"] = _fmt_py(op["hdr"])
+                lg.add_field(name, fn, _fmt_py(op["fmt"]), is_array=op["array"], **kw)
+                k = names if kind == "s" else tuple(names)
+                descr[k] = {"fmt": op["fmt"], "array": op["array"], "cell": current}
+            elif op["op"] == "remove":
+                lg.remove_fields(op["pattern"])
+            elif op["op"] == "header":
+                mark = buf.tell()
+                try:
+                    lg.write_header()
+                    outs.append(buf.getvalue()[mark:])
+                except (IndexError, ValueError, TypeError) as e:
+                    outs.append("err:" + {"IndexError": "index", "ValueError": "value", "TypeError": "type"}[type(e).__name__])
+                    buf.seek(mark); buf.truncate()
+            else:
+                fields = [(k, descr[k]) for k in lg.fields]
+                values = self._values(fields, op)
+                vals_log.append(values)
+                for (k, f), v in zip(fields, values):
+                    f["cell"]["v"] = v if f["array"] else v[0]
+                mark = buf.tell()
+                try:
+                    lg()
+                    outs.append(buf.getvalue()[mark:])
+                except (IndexError, ValueError, TypeError) as e:
+                    outs.append("err:" + {"IndexError": "index", "ValueError": "value", "TypeError": "type"}[type(e).__name__])
+                    buf.seek(mark); buf.truncate()
+        keys = [("s:" + _hx(k)) if isinstance(k, str) else ("t:" + "+".join(_hx(x) for x in k)) for k in lg.fields]
+        self._vals = vals_log
+        return {"outs": outs, "keys": keys, "values": vals_log}
+
+    def model_lines(self, case):
+        # called right after `real(case)`: the values depend on the table the REAL logger held at each call
+        if self._vals is None:
+            return []
+        real_obs = {"values": self._vals}
+        toks = []
+        vi = 0
+        for op in case["ops"]:
+            if op["op"] == "add":
+                kind, names = op["key"]
+                key = ("s:" + _hx(names)) if kind == "s" else ("t:" + ",".join(_hx(x) for x in names))
+                toks.append(";".join(["A", key, _fmt_tok(op["fmt"]), "~" if op["hdr"] is None else _fmt_tok(op["hdr"]),
+                                      "1" if op["array"] else "0"]))
+            elif op["op"] == "remove":
+                toks.append("R;" + _hx(op["pattern"]))
+            elif op["op"] == "header":
+                toks.append("H")
+            else:
+                values = real_obs["values"][vi]
+                vi += 1
+                if not values:
+                    toks.append("C")
+                else:
+                    toks.append("C;" + "/".join(",".join(("s" + _hx(x)) if isinstance(x, str) else f"i{x}" for x in v) or "~"
+                                                for v in values))
+        return ["logt " + " ".join(toks)]
+
+    def model_obs(self, case, outs):
+        w = outs[0].split()
+        if w[0] == "bad-op":
+            return {"outs": "bad-op"}
+        dec = [t if t.startswith("err:") else ("" if t == "-" else bytes.fromhex(t).decode("ascii")) for t in w[:-1]]
+        ks = w[-1][len("keys="):]
+        return {"outs": dec, "keys": [k for k in ks.split(",") if k]}
+
+    def compare(self, case, real_obs, model_obs):
+        out = []
+        if real_obs.get("outs") != model_obs["outs"]:
+            for i, (a, b) in enumerate(zip(real_obs.get("outs", []), model_obs["outs"] if isinstance(model_obs["outs"], list) else [])):
+                if a != b:
+                    out.append(f"line {i}: real={a!r} model={b!r}")
+                    break
+            else:
+                out.append(f"outs: real={real_obs.get('outs')!r} model={model_obs['outs']!r}")
+        if real_obs.get("keys") != model_obs.get("keys"):
+            out.append(f"keys: real={real_obs.get('keys')} model={model_obs.get('keys')}")
+        return out
+
+    def oracle(self, case, obs):
+        if "exception" in obs:
+            return [("logger-table:unexpected-exception:" + obs["exception"], obs.get("message", ""))]
+        out = []
+        nfields = None
+        for line in obs["outs"]:
+            if line.startswith("err:"):
+                continue
+            if not line.endswith("\n") or "\n" in line[:-1]:
+                out.append(("logger-table:not-one-line", repr(line)))
+        return out
+
+    def classify(self, case, obs):
+        kinds = set()
+        for op in case["ops"]:
+            if op["op"] == "add":
+                kinds.add("array" if op["array"] else "scalar")
+                if op["hdr"] is not None:
+                    kinds.add("hdr")
+        errs = sorted({o for o in obs.get("outs", []) if o.startswith("err:")})
+        return "+".join(sorted(kinds)) + (":" + ",".join(errs) if errs else ":ok")
+
+
 def suites(tier):
-    return [FileCrash(), FileSemantics(), LoggerFailedCall(), RestartFailedCall(), RunAfterClose()]
+    return [FileCrash(), FileSemantics(), LoggerFailedCall(), RestartFailedCall(), RunAfterClose(), LoggerTable()]
